@@ -1,10 +1,69 @@
 """helpers shared by c20.py / c21.py: exact numbers of Q(sqrt 3), the OrbRep group models, the SymOrbits structure
 models and their realisation as irrep space groups."""
+import glob
 import math
+import os
+import shutil
 import numpy as np
 
 from .. import ftable, tlc
-from ..common import MachineryError
+from ..common import MachineryError, WORK
+
+# ----------------------------------------------------------------------------- scratch names, guarded calls
+WORKERS = 4          # TLC workers (the models are small; the box is shared)
+_TAG = f"_p{os.getpid()}"
+
+
+def uniq(name):
+    """TLC run / record directory name that is unique per process, so that several checks can run concurrently"""
+    return name + _TAG
+
+
+def cleanup(keep=False):
+    """removes this process's TLC / record scratch directories (kept when violations refer to them)"""
+    if keep:
+        return
+    for pat in (os.path.join(WORK, "tlc", f"*{_TAG}*"), os.path.join(WORK, "records", f"*{_TAG}*")):
+        for d in glob.glob(pat):
+            shutil.rmtree(d, ignore_errors=True)
+
+
+def library_site(ex):
+    """-> "module.function" if the exception was raised inside the wannierberri package, None if the harness (wrong keyword,
+    renamed private attribute) or the environment is responsible (same rule as harness/main.py)"""
+    from ..main import raised_by_code_under_test
+    return raised_by_code_under_test(ex)
+
+
+def guarded(rep, site, detail, fn, *args, **kwargs):
+    """calls the library on an input inside the property's domain -> (ok, value).  An exception raised inside the package is
+    a violation `raises:<site>:<ExcType>` (the check continues with the next input); anything raised on the harness side of
+    the call (bad keyword, renamed name) propagates and ends as exit 2"""
+    try:
+        return True, fn(*args, **kwargs)
+    except MachineryError:
+        raise
+    except Exception as ex:
+        where = library_site(ex)
+        if where is None:
+            raise
+        rep.violation(f"raises:{site}:{type(ex).__name__}", dict(detail, error=f"{type(ex).__name__}: {ex}"[:400], raised_in=where))
+        return False, None
+
+
+def private(rep, what, fn):
+    """evaluates an adapter around private attributes / helpers of the package.  If the name is gone (AttributeError,
+    TypeError, KeyError, IndexError raised on the harness side) the sub-check is skipped and recorded in
+    rep.part("skipped_private"); -> (ok, value)"""
+    try:
+        return True, fn()
+    except MachineryError:
+        raise
+    except (AttributeError, TypeError, KeyError, IndexError, ValueError) as ex:
+        if library_site(ex) is not None:
+            raise
+        rep.part("skipped_private", **{what: f"{type(ex).__name__}: {ex}"[:200]})
+        return False, None
 
 SQ3 = math.sqrt(3.0)
 
@@ -61,7 +120,7 @@ def orbrep_cfg(group, variant="code", invariants=ORBREP_INV):
             "".join(f"INVARIANT {i}\n" for i in invariants) + "CHECK_DEADLOCK FALSE\n")
 
 
-def orbrep_group(group, name, workers=16, variant="code"):
+def orbrep_group(group, name, workers=WORKERS, variant="code"):
     """runs TLC on MC_OrbRep for one group; returns (stats, final state as dict with 0-based python structures)"""
     st = ftable.enumerate_states("MC_OrbRep.tla", orbrep_cfg(group, variant), name, workers=workers)
     if st.get("violation"):
@@ -81,22 +140,104 @@ def orbrep_group(group, name, workers=16, variant="code"):
     return st, g
 
 
-SUB_INDEX = {"pz": ("p", [0]), "p2": ("p", [0, 2]), "pxy": ("p", [1, 2]), "t2g": ("d", [1, 2, 4]), "eg": ("d", [3, 0])}
+# the specification's orbital order (OrbRep.tla: PermP, Qd, SubIndex); the code's order is read from the public table
+# wannierberri.symmetry.orbitals.orbitals_sets_dic, so that a re-ordering that is visible there is followed, not flagged
+SPEC_ORDER = {"s": ["s"], "p": ["pz", "px", "py"], "d": ["dz2", "dxz", "dyz", "dx2-y2", "dxy"]}
+SPEC_SUB = {"pz": ("p", [0]), "p2": ("p", [0, 2]), "pxy": ("p", [1, 2]), "t2g": ("d", [1, 2, 4]), "eg": ("d", [3, 0])}     # OrbRep!SubIndex, 0-based
+SPEC_BASIS = SPEC_ORDER["s"] + SPEC_ORDER["p"] + SPEC_ORDER["d"]
+
+
+def code_orbitals(sh):
+    from wannierberri.symmetry.orbitals import orbitals_sets_dic
+    return list(orbitals_sets_dic[sh])
+
+
+def spec_indices(sh):
+    """(parent, idx): the code's orbitals of shell sh as positions in the specification's parent shell (s, p or d);
+    None if the shell is not a plain subset of one of them (f, sqrt2-hybrids)"""
+    names = code_orbitals(sh)
+    for parent, order in SPEC_ORDER.items():
+        if all(n in order for n in names) and len(set(names)) == len(names):
+            return parent, [order.index(n) for n in names]
+    return None
+
+
+def _parent_matrix(g, parent, i):
+    return np.eye(1) if parent == "s" else (g["dp"][i] if parent == "p" else g["dd"][i])
 
 
 def expected_exact(g, sh, i):
-    """the specification's exact matrix for shell sh and element i (None if the specification has no exact value)"""
-    if sh == "s":
-        return np.eye(1)
-    if sh == "p":
-        return g["dp"][i]
-    if sh == "d":
-        return g["dd"][i]
-    if sh in SUB_INDEX:
-        parent, idx = SUB_INDEX[sh]
-        D = g["dp"][i] if parent == "p" else g["dd"][i]
-        return D[np.ix_(idx, idx)]
-    return None
+    """the specification's exact matrix for shell sh and element i in the code's orbital order (None if the specification has
+    no exact value for this shell)"""
+    si = spec_indices(sh)
+    if si is None:
+        return None
+    parent, idx = si
+    return _parent_matrix(g, parent, i)[np.ix_(idx, idx)]
+
+
+def to_spec_order(sh, M):
+    """a matrix returned by the code for shell sh, re-ordered to the order the TLA+ modules use (s, p, d: SPEC_ORDER;
+    sub-shells: OrbRep!SubIndex); None if the code's shell no longer consists of the same orbitals"""
+    si = spec_indices(sh)
+    if si is None:
+        return None
+    parent, idx = si
+    target = SPEC_SUB[sh][1] if sh in SPEC_SUB else list(range(len(SPEC_ORDER[parent])))
+    if sh in SPEC_SUB and SPEC_SUB[sh][0] != parent:
+        return None
+    if sorted(idx) != sorted(target):
+        return None
+    pos = [idx.index(t) for t in target]
+    return np.asarray(M)[np.ix_(pos, pos)]
+
+
+def hybrid_matrix(sh):
+    """rows = the code's orbitals of shell sh expanded over the specification's basis (s | pz px py | dz2 dxz dyz dx2-y2 dxy),
+    coefficients from the public table orbitals.hybrids_coef; None if the shell uses anything else (f)"""
+    from wannierberri.symmetry.orbitals import hybrids_coef
+    names = code_orbitals(sh)
+    M = np.zeros((len(names), len(SPEC_BASIS)))
+    for r, orb in enumerate(names):
+        coef = hybrids_coef.get(orb)
+        if coef is None:
+            return None
+        for b, c in coef.items():
+            if b not in SPEC_BASIS:
+                return None
+            M[r, SPEC_BASIS.index(b)] = c
+    return M
+
+
+def expected_hybrid(g, sh, i):
+    """M blockdiag(1, D_p, D_d) M^T with the specification's exact s, p, d matrices: what rot_orb must return for any shell
+    made of s, p, d orbitals (numeric: the coefficients are floating-point numbers)"""
+    from scipy.linalg import block_diag
+    M = hybrid_matrix(sh)
+    if M is None:
+        return None
+    return M @ block_diag(np.eye(1), g["dp"][i], g["dd"][i]) @ M.T
+
+
+def shell_content(sh):
+    """{l: number of complete-l multiplicity} is not defined for sub-shells; returns the list of l of the *full* shells whose
+    direct sum is the span of sh (s=0, p=1, d=2, f=3), or None if the span is not a sum of full shells"""
+    full = {"s": [0], "p": [1], "d": [2], "f": [3], "sp3": [0, 1]}
+    return full.get(sh)
+
+
+def rotation_angle(R):
+    """(det, cos theta) of an O(3) matrix"""
+    det = float(np.sign(np.linalg.det(R)))
+    c = (np.trace(R) * det - 1.0) / 2.0
+    return det, float(min(1.0, max(-1.0, c)))
+
+
+def character(l, R):
+    """character of the real orbital representation with angular momentum l: det^l * sum_m cos(m theta)"""
+    det, c = rotation_angle(R)
+    th = math.acos(c)
+    return (det ** l) * sum(math.cos(m * th) for m in range(-l, l + 1))
 
 
 # ----------------------------------------------------------------------------- SymOrbits structure models
@@ -104,7 +245,15 @@ SYMORB_INV = ["CachedTables", "IrrDefinition", "GroupAxioms", "GreyGroup", "Site
               "SiteAction", "TripleAction", "TripleInjective", "TripleInverse", "OrbitsPartition", "IrreducibleReach", "FlipCommutes",
               "FullShellsAllowed", "MixedOrbitClosed"]
 DEN = 4
-CELL = {"cubic": (4.0, 4.0, 4.0), "tetra": (4.0, 4.0, 6.0), "ortho": (4.0, 5.0, 6.0)}
+CELL = {"cubic": (4.0, 4.0, 4.0), "tetra": (4.0, 4.0, 6.0), "ortho": (4.0, 5.0, 6.0), "hex": (4.0, 4.0, 6.0)}
+
+
+def lattice_of(lat):
+    """real lattice (rows) of a specification lattice type; "hex": a1 = a x, a2 = a (-1/2, sqrt3/2, 0), a3 = c z"""
+    a, b, c = CELL[lat]
+    if lat == "hex":
+        return np.array([[a, 0.0, 0.0], [-a / 2, a * SQ3 / 2, 0.0], [0.0, 0.0, c]])
+    return np.diag([a, b, c])
 
 
 def symorb_cfg(lats, nsites, poscat, magnetic, invariants=SYMORB_INV):
@@ -113,7 +262,7 @@ def symorb_cfg(lats, nsites, poscat, magnetic, invariants=SYMORB_INV):
         "".join(f"INVARIANT {i}\n" for i in invariants) + "CHECK_DEADLOCK FALSE\n")
 
 
-def symorb_structures(name, lats, nsites, poscat, magnetic=False, workers=16):
+def symorb_structures(name, lats, nsites, poscat, magnetic=False, workers=WORKERS):
     """TLC on MC_SymOrbits; returns (stats, list of built structures, number of excluded (non-primitive) ones)"""
     st = ftable.enumerate_states("MC_SymOrbits.tla", symorb_cfg(lats, nsites, poscat, magnetic), name, workers=workers)
     if st.get("violation"):
@@ -142,7 +291,7 @@ def symorb_structures(name, lats, nsites, poscat, magnetic=False, workers=16):
 def real_spacegroup(struct, spinor=False):
     """the irrep space group of a specification structure, with the map real symmetry index -> specification op index"""
     from irrep.spacegroup import SpaceGroup
-    lattice = np.diag(CELL[struct["lat"]])
+    lattice = lattice_of(struct["lat"])
     positions = np.array(struct["pos"], dtype=float) / DEN
     typat = list(struct["types"])
     magnetic = any(any(m) for m in struct["mom"])
